@@ -285,6 +285,7 @@ class Site:
 
 OP_CALL = re.compile(r"^<&?(u8|u16|u32|u64|u128|usize|i8|i16|i32|i64|i128|isize) as std::ops::"
                      r"(Add|Sub|Mul|Neg|Shl|Shr|AddAssign|SubAssign|MulAssign|ShlAssign|ShrAssign)(?:<[^>]*>)?>::\w+$")
+NUM_CALL = re.compile(r"core::num::<impl (u8|u16|u32|u64|usize|i8|i16|i32|i64|isize)>::(abs|pow|next_power_of_two)$")
 SKIP_MACROS = ("Debug", "PartialEq", "Hash", "Clone", "PartialOrd", "Ord", "bitflags")
 
 
@@ -310,6 +311,20 @@ def sites(fx, select=None):
                         t2["ops"] = list(t["args"])
                         t2["kind"] = "Overflow:" + op
                         yield Site(b, bi, t2, op, ty)
+                # integer helpers of std that inherit the caller's overflow checks: abs / pow / next_power_of_two, and sum / product of integers
+                cp = t["callee"].get("path") or ""
+                m = NUM_CALL.search(cp)
+                if m and not any(mm in SKIP_MACROS for mm in (t.get("macros") or [])):
+                    op = {"abs": "Abs", "pow": "Pow", "next_power_of_two": "NextPow2"}[m.group(2)]
+                    t2 = dict(t)
+                    t2["ops"] = list(t["args"])
+                    t2["kind"] = "Overflow:" + op
+                    yield Site(b, bi, t2, op, m.group(1))
+                elif cp.endswith(("Iterator::sum", "Iterator::product")) and (t["dest"].get("ty") in INT) and t["dest"].get("ty") not in ("u128", "i128"):
+                    t2 = dict(t)
+                    t2["ops"] = []
+                    t2["kind"] = "Overflow:" + ("Sum" if cp.endswith("sum") else "Product")
+                    yield Site(b, bi, t2, "Sum" if cp.endswith("sum") else "Product", t["dest"]["ty"])
                 continue
             if t["k"] != "assert":
                 continue
@@ -339,7 +354,21 @@ def discharge(fx, O, s, cache):
     iv = Intervals(fx, b, prov).at(cache[b.dp], bi)
     ops = t.get("ops") or []
     rng = INT.get(s.ty)
-    if s.op == "Neg" and len(ops) >= 1 and rng:
+    if s.op in ("Sum", "Product"):
+        return None
+    if s.op == "NextPow2" and len(ops) >= 1 and rng:
+        a = iv.op(ops[0])
+        if a and a[1] <= (rng[1] + 1) // 2:
+            return "operand at most %d: the next power of two fits %s" % (a[1], s.ty)
+        return None
+    if s.op == "Pow" and len(ops) >= 2 and rng:
+        a, c = iv.op(ops[0]), iv.op(ops[1])
+        if a and c and c[0] >= 0 and c[1] <= 128:
+            hi = max(abs(a[0]), abs(a[1])) ** c[1]
+            if hi <= rng[1]:
+                return "|base| at most %d, exponent at most %d: the power is at most %d" % (max(abs(a[0]), abs(a[1])), c[1], hi)
+        return None
+    if s.op in ("Neg", "Abs") and len(ops) >= 1 and rng:
         a = iv.op(ops[0])
         if a and a[0] > rng[0]:
             return "operand in [%d, %d]: the minimum of %s is excluded" % (a[0], a[1], s.ty)
